@@ -111,6 +111,639 @@ theorem phDst_fields {k : Nat} {can : Bool} {c a' : ASt w} {x : Instr w} {u : Un
     exact ⟨rfl, pickTemp_freeRegs_sub c (L - k), fun j hj => hset _ j hj,
       Or.inr ⟨t, r, ht, hr, Or.inr ⟨L, _, q2, rfl, rfl⟩⟩⟩
 
+/-! ### a round without fusion -/
+
+/-- A temporary read by a pending instruction is read by an instruction of the input. -/
+theorem read_in_input {k : Nat} {a : ASt w} (hI : PassInv s k a) {j : Nat} {x : Instr w} {t : Nat} (hj : k ≤ j)
+    (hx : a.st.insts[j]? = some x) (ht : t ∈ BcWf.uses x) :
+    ∃ (j' : Nat) (y : Instr w), s.insts[j']? = some y ∧ t ∈ BcWf.uses y := by
+  rcases hI.fut j hj with hsame | ⟨op, m, t', s0, s1, hFu⟩
+  · exact ⟨j, x, by rw [← hsame]; exact hx, ht⟩
+  · have h2 := hFu.2.2
+    rw [hx] at h2; cases h2
+    obtain ⟨i, r, L, g1, _⟩ := hI.fused _ _ _ _ _ _ hFu
+    exact ⟨i, _, g1, by rw [uses_mkArith] at ht ⊢; exact ht⟩
+
+/-- A temporary that is read and was created at `k` is the destination of input instruction `k`. -/
+theorem created_here (hp : TotalPre s) {k : Nat} {a : ASt w} (hI : PassInv s k a) {j : Nat} {x : Instr w} {t : Nat}
+    (hj : k ≤ j) (hx : a.st.insts[j]? = some x) (ht : t ∈ BcWf.uses x) {r : RangeInfo}
+    (hr : s.ranges[t]? = some r) (hc : r.created = k) :
+    ∃ y, s.insts[k]? = some y ∧ dstTmp? y = some t ∧ r.numUses ≠ 0 ∧ ∃ L, r.lastUse = some L := by
+  obtain ⟨j', y', hy', hu'⟩ := read_in_input hI hj hx ht
+  obtain ⟨r', y, g1, g2, g3⟩ := hp.defAt j' y' t hy' hu'
+  rw [hr] at g1; cases g1
+  rw [hc] at g2
+  refine ⟨y, g2, g3, ?_, ?_⟩
+  · intro h0
+    exact hp.unread t r hr h0 j' y' hy' hu'
+  · obtain ⟨r1, L, p1, p2, _⟩ := hp.pre.uses j' y' t hy' hu'
+    rw [hr] at p1; cases p1
+    exact ⟨L, p2⟩
+
+theorem tinv_nofuse (hp : TotalPre s) {numRegs k : Nat} {a b a' : ASt w} {atf0 : List Nat} {cur new : Instr w}
+    {can : Bool} {live : Nat} {u : Unit} (hk : k < s.insts.size) (hI : PassInv s k a) (hT : TInv s numRegs k a)
+    (hb : PassInv s k b) (DF : DrainFacts s k a b atf0) (hi0 : b.st.insts[k]? = some cur)
+    (hn : rwInst b.repl cur = .ok new)
+    (hD : phDst k can (pushLive (freeList numRegs atf0 (b.setI k new)) live) = .ok (u, a')) :
+    TInv s numRegs (k + 1) a' := by
+  have hpa := hp.pre
+  have hc1 := passInv_rewrite hb hi0 hn
+  have hkb : k < b.st.insts.size := lt_of_getElem? hi0
+  have hcst : (freeList numRegs atf0 (b.setI k new)).st = (b.setI k new).st := freeList_st _ _ _
+  have hcnre : (freeList numRegs atf0 (b.setI k new)).nre = b.nre := freeList_nre _ _ _
+  have hx3 : (pushLive (freeList numRegs atf0 (b.setI k new)) live).st.insts[k]? = some new := by
+    show (freeList numRegs atf0 (b.setI k new)).st.insts[k]? = _
+    rw [hcst, getElem?_setI]; simp [hkb]
+  have hget3 : ∀ t', alGet (freeList numRegs atf0 (b.setI k new)).repl t' =
+      if t' ∈ atf0 then none else alGet a.repl t' := by
+    intro t'
+    rw [alGet_freeList numRegs atf0 hc1.regs t', ← DF.repl]; rfl
+  obtain ⟨f1, f2, f3, f4⟩ := phDst_fields hD hx3
+  have hrng : a'.st.ranges = a.st.ranges := by
+    rw [f1]
+    show (freeList numRegs atf0 (b.setI k new)).st.ranges = _
+    rw [hcst, ← DF.st]; rfl
+  have hins : ∀ j, j ≠ k → a'.st.insts[j]? = a.st.insts[j]? := by
+    intro j hj
+    rw [f3 j hj]
+    show (freeList numRegs atf0 (b.setI k new)).st.insts[j]? = _
+    rw [hcst, getElem?_setI, ← DF.st]
+    have : ¬ (k = j ∧ k < b.st.insts.size) := fun h => hj h.1.symm
+    simp [this]
+  have hcnre' : (pushLive (freeList numRegs atf0 (b.setI k new)) live).nre = b.nre := hcnre
+  have hcrepl' : ∀ t', alGet (pushLive (freeList numRegs atf0 (b.setI k new)) live).repl t' =
+      if t' ∈ atf0 then none else alGet a.repl t' := hget3
+  have hcrng' : (pushLive (freeList numRegs atf0 (b.setI k new)) live).st.ranges = a.st.ranges := by
+    show (freeList numRegs atf0 (b.setI k new)).st.ranges = _
+    rw [hcst, ← DF.st]; rfl
+  have hcfree : ∀ r ∈ (pushLive (freeList numRegs atf0 (b.setI k new)) live).freeRegs, r < numRegs := by
+    show ∀ r ∈ (freeList numRegs atf0 (b.setI k new)).freeRegs, r < numRegs
+    apply freeList_freeRegs_lt
+    show ∀ r ∈ b.freeRegs, r < numRegs
+    rw [DF.freeRegs]; exact hT.freeLt
+  generalize pushLive (freeList numRegs atf0 (b.setI k new)) live = c at *
+  -- `dstTmp?` is not changed by the rewriting
+  obtain ⟨hzc, ycur, hycur, hbrc⟩ := hb.skel k cur hi0
+  obtain ⟨_, _, hnd⟩ := rwInst_facts hn (fun t v g => (hb.replDom t v g).1) hzc
+  -- the table after the round has an entry wherever the table before had one that is not released
+  have hkeep : ∀ t l, alGet a.repl t = some l → t ∉ atf0 → ∃ l', alGet a'.repl t = some l' := by
+    intro t l hl hna
+    have hc : alGet c.repl t = some l := by rw [hcrepl']; simp [hna, hl]
+    rcases f4 with ⟨_, _, e⟩ | ⟨t0, r0, _, _, ⟨_, _, e⟩ | ⟨L, l0, _, _, e⟩⟩
+    · exact ⟨l, by rw [e]; exact hc⟩
+    · exact ⟨l, by rw [e]; exact hc⟩
+    · rw [e, alGet_alSet]
+      split
+      · exact ⟨_, rfl⟩
+      · exact ⟨l, hc⟩
+  refine ⟨?_, ?_, ?_, ?_, ?_, ?_, ?_, ?_⟩
+  · -- complete
+    intro j x t r hj hx ht hr hcr
+    have hjk : j ≠ k := by omega
+    have hxa : a.st.insts[j]? = some x := by rw [← hins j hjk]; exact hx
+    by_cases hck : r.created = k
+    · obtain ⟨y, hy, hdy, hnu, L, hL⟩ := created_here hp hI (by omega) hxa ht hr hck
+      -- `y` is the current instruction
+      have hcy : cur = y := by
+        rcases hb.fut k (Nat.le_refl _) with hsame | ⟨op, m, t', s0, s1, hFu⟩
+        · rw [hi0, hy] at hsame; exact Option.some.inj hsame
+        · have h1 := hFu.2.1
+          rw [hy] at h1; cases h1
+          cases hdy
+      subst hcy
+      have hdn : dstTmp? new = some t := by rw [hnd]; exact hdy
+      have hrb : b.st.ranges[t]? = some r := by
+        obtain ⟨r', q1, _, _, q4⟩ := hb.rkeep t r hr
+        rw [q4 (by omega)] at q1; exact q1
+      rcases f4 with ⟨e, _⟩ | ⟨t0, r0, e0, hr0, h0⟩
+      · rw [hdn] at e; cases e
+      · rw [hdn] at e0; cases e0
+        rw [hcrng', ← DF.st, hrb] at hr0; cases hr0
+        rcases h0 with ⟨h0 | h0, _⟩ | ⟨L', l0, _, _, e⟩
+        · exact absurd h0 hnu
+        · rw [hL] at h0; cases h0
+        · exact ⟨l0, by rw [e, alGet_alSet_self]⟩
+    · obtain ⟨l, hl⟩ := hT.complete j x t r (by omega) hxa ht hr (by omega)
+      exact hkeep t l hl (fun hm => DF.noread t hm j x hj hxa ht)
+  · -- fusedLast
+    intro f op m t' s0 s1 t hFu hs
+    have hfk : f ≠ k := Nat.ne_of_gt hFu.1
+    have hFa : Fused s k a f op m t' s0 s1 := fused_mono hFu (Nat.le_of_succ_le hFu.1) (hins f hfk).symm
+    rw [hrng]
+    exact hT.fusedLast f op m t' s0 s1 t hFa hs
+  · -- heapRange
+    intro e t h
+    rw [hrng]
+    have hold : ∀ e t, (e, t) ∈ b.nre → ∃ (r : RangeInfo) (L : Nat), a.st.ranges[t]? = some r ∧ r.lastUse = some L := by
+      intro e t h
+      obtain ⟨r, L, q1, q2⟩ := DF.range e t h
+      exact ⟨r, L, by rw [← DF.st]; exact q1, q2⟩
+    rcases f4 with ⟨_, e1, _⟩ | ⟨t0, r0, _, hr0, ⟨_, e1, _⟩ | ⟨L, l0, hL, e1, _⟩⟩
+    · rw [e1, hcnre'] at h; exact hold e t h
+    · rw [e1, hcnre'] at h; exact hold e t h
+    · rw [e1, hcnre', mem_nrePush] at h
+      rcases h with h | h
+      · simp only [Prod.mk.injEq] at h
+        rw [h.2]
+        exact ⟨r0, L, by rw [← hcrng']; exact hr0, hL⟩
+      · exact hold e t h
+  · -- replHeap
+    intro t l hl
+    have hold : ∀ t l, alGet c.repl t = some l → ∃ e, (e, t) ∈ b.nre := by
+      intro t l hc
+      rw [hcrepl'] at hc
+      split at hc
+      · cases hc
+      · rename_i hna
+        exact (DF.kept t l hc).resolve_right hna
+    rcases f4 with ⟨_, e1, e2⟩ | ⟨t0, r0, _, hr0, ⟨_, e1, e2⟩ | ⟨L, l0, hL, e1, e2⟩⟩
+    · rw [e1, hcnre']; exact hold t l (by rw [← e2]; exact hl)
+    · rw [e1, hcnre']; exact hold t l (by rw [← e2]; exact hl)
+    · rw [e2, alGet_alSet] at hl
+      rw [e1, hcnre']
+      split at hl
+      · rename_i e; subst e
+        exact ⟨L, by rw [mem_nrePush]; exact Or.inl rfl⟩
+      · obtain ⟨e, he⟩ := hold t l hl
+        exact ⟨e, by rw [mem_nrePush]; exact Or.inr he⟩
+  · -- heapBound
+    intro e t h
+    have hold : ∀ e t, (e, t) ∈ b.nre → k + 1 ≤ e ∧ e < s.insts.size := by
+      intro e t h
+      have := DF.bound e t h
+      omega
+    rcases f4 with ⟨_, e1, _⟩ | ⟨t0, r0, hd0, hr0, ⟨_, e1, _⟩ | ⟨L, l0, hL, e1, _⟩⟩
+    · rw [e1, hcnre'] at h; exact hold e t h
+    · rw [e1, hcnre'] at h; exact hold e t h
+    · rw [e1, hcnre', mem_nrePush] at h
+      rcases h with h | h
+      · simp only [Prod.mk.injEq] at h
+        rw [h.1]
+        -- the destination of input instruction `k`
+        have hdc : dstTmp? cur = some t0 := by rw [← hnd]; exact hd0
+        have hPk : s.insts[k]? = some cur := by
+          rcases hb.fut k (Nat.le_refl _) with hsame | ⟨op, m, t', s0, s1, hFu⟩
+          · rw [← hsame]; exact hi0
+          · have h2 := hFu.2.2
+            rw [hi0] at h2; cases h2
+            rw [dstTmp?_mkArith] at hdc; cases hdc
+        obtain ⟨r, f, L1, g1, g2, g3, g4, g5⟩ := hp.defd k cur t0 hPk hdc
+        obtain ⟨rd, gd1, gd2⟩ := hpa.defs k cur t0 hPk (mem_defs_of_dstTmp? hdc)
+        rw [g1] at gd1; cases gd1
+        obtain ⟨r', q1, _, _, q4⟩ := hb.rkeep t0 r g1
+        rw [q4 (by omega)] at q1
+        rw [hcrng', ← DF.st, q1] at hr0; cases hr0
+        rw [g3] at hL; cases hL
+        exact ⟨by omega, hp.lastLt t0 _ _ g1 g3⟩
+      · exact hold e t h
+  · -- sorted
+    rcases f4 with ⟨_, e1, _⟩ | ⟨t0, r0, _, _, ⟨_, e1, _⟩ | ⟨L, l0, _, e1, _⟩⟩
+    · rw [e1, hcnre']; exact DF.sorted
+    · rw [e1, hcnre']; exact DF.sorted
+    · rw [e1, hcnre']; exact sortedE_nrePush DF.sorted
+  · -- freeLt
+    intro r hr
+    exact hcfree r (f2 r hr)
+  · -- rangeLt
+    rw [hrng]; exact hT.rangeLt
+
+/-! ### a round with fusion -/
+
+theorem fuseSrcP_ranges_size {f : Nat} {atf atf' : List Nat} {l : Loc w} {a a' : ASt w}
+    (h : fuseSrcP f atf l a = .ok (atf', a')) : a'.st.ranges.size = a.st.ranges.size := by
+  cases l with
+  | tmp t =>
+    simp only [fuseSrcP] at h
+    cases he : extendTo a.st.ranges t f with
+    | error e => simp [he] at h
+    | ok rs =>
+      simp only [he] at h
+      have hsz : rs.size = a.st.ranges.size := by
+        unfold extendTo at he
+        cases hr : a.st.ranges[t]? with
+        | none => simp [hr] at he
+        | some r => simp only [hr, Except.ok.injEq] at he; rw [← he]; simp
+      split at h
+      · simp only [Except.ok.injEq, Prod.mk.injEq] at h
+        obtain ⟨_, rfl⟩ := h; exact hsz
+      · simp only [Except.ok.injEq, Prod.mk.injEq] at h
+        obtain ⟨_, rfl⟩ := h; exact hsz
+  | mem m => simp only [fuseSrcP, Except.ok.injEq, Prod.mk.injEq] at h; obtain ⟨_, rfl⟩ := h; rfl
+  | memZero m => simp only [fuseSrcP, Except.ok.injEq, Prod.mk.injEq] at h; obtain ⟨_, rfl⟩ := h; rfl
+  | imm c => simp only [fuseSrcP, Except.ok.injEq, Prod.mk.injEq] at h; obtain ⟨_, rfl⟩ := h; rfl
+
+theorem retarget_fields (a5 : ASt w) (f : Nat) (m : Int) (x : Instr w) :
+    (retarget a5 f m x).nre = a5.nre ∧ (retarget a5 f m x).st.ranges = a5.st.ranges := by
+  unfold retarget
+  split <;> exact ⟨rfl, rfl⟩
+
+theorem tinv_fuse (hp : TotalPre s) {numRegs k : Nat} {a b a' : ASt w} {atf0 : List Nat} {inst0 : Instr w}
+    {live : Nat} (hk : k < s.insts.size) (hI : PassInv s k a) (hT : TInv s numRegs k a) (hb : PassInv s k b)
+    (DF : DrainFacts s k a b atf0) (hdead : ∀ t ∈ atf0, DeadAt s k t) (hi0 : b.st.insts[k]? = some inst0)
+    {op : BcGen.Op} {t : Nat} {s0 s1 : Loc w} {r : RangeInfo} {L f : Nat} {m : Int} {src : Loc w}
+    {atf1 atf : List Nat} {a1 a2 : ASt w} {x : Instr w}
+    (e1 : arith? inst0 = some (op, .tmp t, s0, s1)) (e2 : b.st.ranges[t]? = some r) (e3 : r.lastUse = some L)
+    (e4 : r.firstUse = some f) (e5 : b.st.insts[f]? = some (.copy (.mem m) src))
+    (e6 : hasWriteInRange b.st m (f + 1) L = false)
+    (e7 : srcOk b k f s0 = .ok true) (e8 : srcOk b k f s1 = .ok true)
+    (e9 : fuseSrcP f atf0 s0 b = .ok (atf1, a1)) (e10 : fuseSrcP f atf1 s1 a1 = .ok (atf, a2))
+    (e11 : (fuseSt a2 k t L f m inst0).st.insts[f]? = some x)
+    (ha' : a' = pushLive (freeList numRegs atf (retarget (fuseSt a2 k t L f m inst0) f m x)) live) :
+    TInv s numRegs (k + 1) a' := by
+  have hpa := hp.pre
+  obtain ⟨hcF, hkF, hPk, hkf, hPf, hreplF, hatf, hinsF, hfF, hfr, hft, hnf, hlv, hfb⟩ :=
+    passInv_fuse hpa hb hdead hi0 e1 e2 e3 e4 e5 e6 e7 e8 e9 e10 e11
+  have hinst0 : inst0 = mkArith op (.tmp t) s0 s1 := arith?_eq_some.1 e1
+  have S1 := fuseSrcP_spec e9
+  have S2 := fuseSrcP_spec e10
+  obtain ⟨hFnre, hFrng⟩ := retarget_fields (fuseSt a2 k t L f m inst0) f m x
+  have hFnre' : (retarget (fuseSt a2 k t L f m inst0) f m x).nre = nrePush (L, t) a2.nre := hFnre
+  have hFrng' : (retarget (fuseSt a2 k t L f m inst0) f m x).st.ranges = a2.st.ranges := hFrng
+  generalize haFdef : retarget (fuseSt a2 k t L f m inst0) f m x = aF at *
+  subst ha'
+  -- the state after the round
+  have hst' : (pushLive (freeList numRegs atf aF) live).st.ranges = a2.st.ranges := by
+    show (freeList numRegs atf aF).st.ranges = _
+    rw [freeList_st, hFrng']
+  have hins' : ∀ j : Nat, (pushLive (freeList numRegs atf aF) live).st.insts[j]? = aF.st.insts[j]? := by
+    intro j
+    show (freeList numRegs atf aF).st.insts[j]? = _
+    rw [freeList_st]
+  have hnre' : (pushLive (freeList numRegs atf aF) live).nre = nrePush (L, t) a2.nre := by
+    show (freeList numRegs atf aF).nre = _
+    rw [freeList_nre, hFnre']
+  have hrepl' : ∀ t', alGet (pushLive (freeList numRegs atf aF) live).repl t' =
+      if t' ∈ atf then none else alGet aF.repl t' := fun t' => alGet_freeList numRegs atf hcF.regs t'
+  have hfree' : ∀ r ∈ (pushLive (freeList numRegs atf aF) live).freeRegs, r < numRegs := by
+    show ∀ r ∈ (freeList numRegs atf aF).freeRegs, r < numRegs
+    apply freeList_freeRegs_lt
+    rw [hfr, DF.freeRegs]; exact hT.freeLt
+  generalize pushLive (freeList numRegs atf aF) live = A' at *
+  -- the members of `atf`
+  have hatfm : ∀ y, y ∈ atf ↔ y ∈ atf0 ∧ s0 ≠ .tmp y ∧ s1 ≠ .tmp y := by
+    intro y
+    rw [S2.atfMem, S1.atfMem]
+    constructor
+    · rintro ⟨⟨h1, h2⟩, h3⟩; exact ⟨h1, h2, h3⟩
+    · rintro ⟨h1, h2, h3⟩; exact ⟨⟨h1, h2⟩, h3⟩
+  -- the range table
+  have hR : ∀ (t' : Nat) (r0 : RangeInfo), b.st.ranges[t']? = some r0 →
+      ∃ r2 : RangeInfo, a2.st.ranges[t']? = some r2 ∧
+        ((s0 ≠ .tmp t' ∧ s1 ≠ .tmp t') → r2 = r0) ∧ ((s0 = .tmp t' ∨ s1 = .tmp t') → r2.lastUse = some f) := by
+    intro t' r0 h0
+    obtain ⟨r1, g1, _, _, g4, g5⟩ := S1.ranges t' r0 h0
+    obtain ⟨r2, q1, _, _, q4, q5⟩ := S2.ranges t' r1 g1
+    refine ⟨r2, q1, ?_, ?_⟩
+    · rintro ⟨n0, n1⟩
+      rw [q4 n1, g4 n0]
+    · intro hop
+      by_cases h1 : s1 = .tmp t'
+      · exact q5 h1
+      · rw [q4 h1]
+        exact g5 (hop.resolve_right h1)
+  have hRback : ∀ (t' : Nat) (r2 : RangeInfo), a2.st.ranges[t']? = some r2 →
+      ∃ r0 : RangeInfo, b.st.ranges[t']? = some r0 := by
+    intro t' r2 h2
+    have hlt : t' < b.st.ranges.size := by
+      rw [← fuseSrcP_ranges_size e9, ← fuseSrcP_ranges_size e10]; exact lt_of_getElem? h2
+    exact ⟨_, Array.getElem?_eq_getElem hlt⟩
+  -- operands of the moved computation
+  have hopnd : ∀ u, (s0 = .tmp u ∨ s1 = .tmp u) →
+      ∃ ru : RangeInfo, s.ranges[u]? = some ru ∧ ru.created < k ∧ ∃ rb : RangeInfo, b.st.ranges[u]? = some rb := by
+    intro u hu
+    obtain ⟨ru, Lu, g1, _, g3, _⟩ := hpa.uses k _ u hPk (by
+      rw [uses_mkArith]; rcases hu with rfl | rfl <;> simp [locTmp])
+    obtain ⟨rb, q1, _⟩ := hb.rkeep u ru g1
+    exact ⟨ru, g1, g3, rb, q1⟩
+  -- the destination
+  obtain ⟨rt, ft, Lt, gt1, gt2, gt3, gt4, gt5⟩ := hp.defd k _ t hPk (by rw [dstTmp?_mkArith])
+  obtain ⟨rd, gd1, gd2⟩ := hpa.defs k _ t hPk (by rw [defs_mkArith]; simp [locTmp])
+  rw [gt1] at gd1; cases gd1
+  have hrt : r = rt := by
+    obtain ⟨r', q1, _, _, q4⟩ := hb.rkeep t rt gt1
+    rw [q4 (by omega), e2] at q1
+    exact Option.some.inj q1
+  subst hrt
+  rw [gt3] at e3; cases e3
+  rw [gt2] at e4; cases e4
+  have hLn : L < s.insts.size := hp.lastLt t r L gt1 gt3
+  have htatf : t ∉ atf := by
+    intro hm
+    have := hdead t ((hatfm t).1 hm).1 r L gt1 gt3
+    omega
+  have hbinsts : ∀ j : Nat, b.st.insts[j]? = a.st.insts[j]? := fun j => by rw [DF.st]
+  refine ⟨?_, ?_, ?_, ?_, ?_, ?_, hfree', ?_⟩
+  · -- complete
+    intro j x' t' r' hj hx' ht' hr' hcr
+    rw [hins'] at hx'
+    by_cases hjf : j = f
+    · subst hjf
+      rw [hfF] at hx'; cases hx'
+      have hu := uses_mkArith_tmp ht'
+      obtain ⟨ru, g1, g2, _⟩ := hopnd t' hu
+      rw [hr'] at g1; cases g1
+      obtain ⟨l, hl⟩ := hT.complete k inst0 t' r' (Nat.le_refl _) (by rw [← hbinsts]; exact hi0)
+        (by rw [hinst0, uses_mkArith]; rw [uses_mkArith] at ht'; exact ht') hr' g2
+      have hna : t' ∉ atf := by
+        intro hm
+        obtain ⟨_, n0, n1⟩ := (hatfm t').1 hm
+        rcases hu with h | h
+        · exact n0 h
+        · exact n1 h
+      rw [hrepl']
+      simp only [hna, if_false]
+      rw [hreplF, alGet_alSet]
+      split
+      · exact ⟨_, rfl⟩
+      · exact ⟨l, by rw [DF.repl]; exact hl⟩
+    · have hjk : j ≠ k := by omega
+      have hxa : a.st.insts[j]? = some x' := by rw [← hbinsts, ← hinsF j hjk hjf]; exact hx'
+      by_cases hck : r'.created = k
+      · obtain ⟨y, hy, hdy, _⟩ := created_here hp hI (by omega) hxa ht' hr' hck
+        rw [hPk] at hy; cases hy
+        rw [dstTmp?_mkArith] at hdy
+        cases hdy
+        rw [hrepl']
+        simp only [htatf, if_false]
+        exact ⟨_, by rw [hreplF, alGet_alSet_self]⟩
+      · obtain ⟨l, hl⟩ := hT.complete j x' t' r' (by omega) hxa ht' hr' (by omega)
+        have hna : t' ∉ atf := fun hm => DF.noread t' ((hatfm t').1 hm).1 j x' hj hxa ht'
+        rw [hrepl']
+        simp only [hna, if_false]
+        rw [hreplF, alGet_alSet]
+        split
+        · exact ⟨_, rfl⟩
+        · exact ⟨l, by rw [DF.repl]; exact hl⟩
+  · -- fusedLast
+    intro f' op' m' t'' s0' s1' u hFu hs
+    rw [hst']
+    by_cases hff : f' = f
+    · subst hff
+      have h2 := hFu.2.2
+      rw [hins', hfF] at h2
+      obtain ⟨rfl, _, rfl, rfl⟩ := mkArith_inj (Option.some.inj h2)
+      obtain ⟨_, _, _, rb, hrb⟩ := hopnd u hs
+      obtain ⟨r2, q1, _, q3⟩ := hR u rb hrb
+      exact ⟨r2, f', q1, q3 hs, Nat.le_refl _⟩
+    · have hfk : f' ≠ k := Nat.ne_of_gt hFu.1
+      have hFa : Fused s k a f' op' m' t'' s0' s1' := by
+        refine fused_mono hFu (Nat.le_of_succ_le hFu.1) ?_
+        rw [hins', hinsF f' hfk hff, hbinsts]
+      obtain ⟨r0, L0, g1, g2, g3⟩ := hT.fusedLast f' op' m' t'' s0' s1' u hFa hs
+      obtain ⟨r2, q1, q2, q3⟩ := hR u r0 (by rw [DF.st]; exact g1)
+      by_cases hop : s0 = .tmp u ∨ s1 = .tmp u
+      · refine ⟨r2, f, q1, q3 hop, ?_⟩
+        obtain ⟨i', hik', hc', _⟩ := fused_cand hI hFa
+        have hcnew : Cand s k op t s0 s1 f m (.tmp t) := ⟨hPk, ⟨r, L, gt1, gt2, gt3⟩, hPf⟩
+        exact hp.mono i' op' t'' s0' s1' f' m' k op t s0 s1 f m u hc' hcnew hik' hs hop
+      · have : s0 ≠ .tmp u ∧ s1 ≠ .tmp u := ⟨fun h => hop (Or.inl h), fun h => hop (Or.inr h)⟩
+        rw [q2 this] at q1
+        exact ⟨r0, L0, q1, g2, g3⟩
+  · -- heapRange
+    intro e t' h
+    rw [hst']
+    rw [hnre', mem_nrePush] at h
+    have hfromb : ∀ (t' : Nat) (r0 : RangeInfo) (L0 : Nat), b.st.ranges[t']? = some r0 → r0.lastUse = some L0 →
+        ∃ (r2 : RangeInfo) (L2 : Nat), a2.st.ranges[t']? = some r2 ∧ r2.lastUse = some L2 := by
+      intro t' r0 L0 h0 hL0
+      obtain ⟨r2, q1, q2, q3⟩ := hR t' r0 h0
+      by_cases hop : s0 = .tmp t' ∨ s1 = .tmp t'
+      · exact ⟨r2, f, q1, q3 hop⟩
+      · have : s0 ≠ .tmp t' ∧ s1 ≠ .tmp t' := ⟨fun h => hop (Or.inl h), fun h => hop (Or.inr h)⟩
+        rw [q2 this] at q1
+        exact ⟨r0, L0, q1, hL0⟩
+    rcases h with h | h
+    · simp only [Prod.mk.injEq] at h
+      rw [h.2]
+      exact hfromb t r L e2 gt3
+    · rcases S2.nre _ h with h2 | ⟨u, hu, he, _⟩
+      · rcases S1.nre _ h2 with h1 | ⟨u, hu, he, _⟩
+        · obtain ⟨r0, L0, g1, g2⟩ := DF.range e t' h1
+          exact hfromb t' r0 L0 g1 g2
+        · simp only [Prod.mk.injEq] at he
+          rw [he.2]
+          obtain ⟨_, _, _, rb, hrb⟩ := hopnd u (Or.inl hu)
+          obtain ⟨r2, q1, _, q3⟩ := hR u rb hrb
+          exact ⟨r2, f, q1, q3 (Or.inl hu)⟩
+      · simp only [Prod.mk.injEq] at he
+        rw [he.2]
+        obtain ⟨_, _, _, rb, hrb⟩ := hopnd u (Or.inr hu)
+        obtain ⟨r2, q1, _, q3⟩ := hR u rb hrb
+        exact ⟨r2, f, q1, q3 (Or.inr hu)⟩
+  · -- replHeap
+    intro t' l hl
+    rw [hrepl'] at hl
+    split at hl
+    · cases hl
+    · rename_i hna
+      rw [hnre']
+      rw [hreplF, alGet_alSet] at hl
+      split at hl
+      · rename_i e; subst e
+        exact ⟨L, by rw [mem_nrePush]; exact Or.inl rfl⟩
+      · rcases DF.kept t' l (by rw [← DF.repl]; exact hl) with ⟨e, he⟩ | hm
+        · exact ⟨e, by rw [mem_nrePush]; exact Or.inr (S2.nreSub _ (S1.nreSub _ he))⟩
+        · -- about to be released, but an operand of the moved computation
+          have hop : s0 = .tmp t' ∨ s1 = .tmp t' := by
+            apply Classical.byContradiction
+            intro hno
+            exact hna ((hatfm t').2 ⟨hm, fun h => hno (Or.inl h), fun h => hno (Or.inr h)⟩)
+          refine ⟨f, ?_⟩
+          rw [mem_nrePush]
+          right
+          by_cases h0 : s0 = .tmp t'
+          · subst h0
+            exact S2.nreSub _ (fuseSrcP_push e9 hm)
+          · have h1 : s1 = .tmp t' := hop.resolve_left h0
+            subst h1
+            exact fuseSrcP_push e10 ((S1.atfMem t').2 ⟨hm, h0⟩)
+  · -- heapBound
+    intro e t' h
+    rw [hnre', mem_nrePush] at h
+    rcases h with h | h
+    · simp only [Prod.mk.injEq] at h
+      rw [h.1]; omega
+    · rcases S2.nre _ h with h2 | ⟨u, hu, he, _⟩
+      · rcases S1.nre _ h2 with h1 | ⟨u, hu, he, _⟩
+        · have := DF.bound e t' h1; omega
+        · simp only [Prod.mk.injEq] at he
+          rw [he.1]; omega
+      · simp only [Prod.mk.injEq] at he
+        rw [he.1]; omega
+  · -- sorted
+    rw [hnre']
+    exact sortedE_nrePush (fuseSrcP_sorted e10 (fuseSrcP_sorted e9 DF.sorted))
+  · -- rangeLt
+    intro t' r2 L2 h2 hL2
+    rw [hst'] at h2
+    obtain ⟨r0, h0⟩ := hRback t' r2 h2
+    obtain ⟨r2', q1, q2, q3⟩ := hR t' r0 h0
+    rw [h2] at q1; cases q1
+    by_cases hop : s0 = .tmp t' ∨ s1 = .tmp t'
+    · rw [q3 hop] at hL2; cases hL2; omega
+    · have : s0 ≠ .tmp t' ∧ s1 ≠ .tmp t' := ⟨fun h => hop (Or.inl h), fun h => hop (Or.inr h)⟩
+      rw [q2 this] at hL2
+      exact hT.rangeLt t' r0 L2 (by rw [← DF.st]; exact h0) hL2
+
+/-! ### one round -/
+
+theorem tinv_step (hp : TotalPre s) {numRegs k : Nat} {a a' : ASt w} {u : Unit} (hk : k < s.insts.size)
+    (hI : PassInv s k a) (hT : TInv s numRegs k a) (h : allocStep numRegs k a = .ok (u, a')) :
+    TInv s numRegs (k + 1) a' := by
+  obtain ⟨atf0, b, inst0, can, atf, aF, cur, new, live, hd, hi0, hF, hc, hn, hl, hD⟩ := allocStep_ok h
+  replace hD : phDst k can (pushLive (freeList numRegs atf (aF.setI k new)) live) = .ok (u, a') := hD
+  obtain ⟨d1, d2, d3⟩ := drainEnds_ok _ hd
+  obtain ⟨hb, hdead⟩ := passInv_drain hI d1 d2 (fun t ht => (d3 t ht).resolve_left (by simp))
+  have DF := drainFacts hp.pre hI hT hd
+  rcases hF with ⟨rfl, rfl⟩ | ⟨op, t, s0, s1, r, L, f, m, src, atf1, a1, a2, x, e1, e2, e3, e4, e5, e6, e7, e8,
+      e9, e10, e11, rfl⟩
+  · have hcur : cur = inst0 := Option.some.inj (hc.symm.trans hi0)
+    subst hcur
+    exact tinv_nofuse hp hk hI hT hb DF hi0 hn hD
+  · obtain ⟨hcF, hkF, _⟩ := passInv_fuse hp.pre hb hdead hi0 e1 e2 e3 e4 e5 e6 e7 e8 e9 e10 e11
+    rw [hkF] at hc; cases hc
+    have hnew : new = .noop := by
+      simp only [rwInst, arith?, Except.ok.injEq] at hn; exact hn.symm
+    subst hnew
+    rw [setI_self hkF] at hD
+    have hx3 : (pushLive (freeList numRegs atf (retarget (fuseSt a2 k t L f m inst0) f m x)) live).st.insts[k]?
+        = some .noop := by
+      show (freeList numRegs atf (retarget (fuseSt a2 k t L f m inst0) f m x)).st.insts[k]? = _
+      rw [freeList_st]; exact hkF
+    have hst' : a' = pushLive (freeList numRegs atf (retarget (fuseSt a2 k t L f m inst0) f m x)) live := by
+      obtain ⟨x', hx', h'⟩ := phDst_ok hD
+      rw [hx3] at hx'; cases hx'
+      rcases h' with ⟨_, e⟩ | ⟨t0, ht0, _⟩
+      · exact e
+      · cases ht0
+    exact tinv_fuse hp hk hI hT hb DF hdead hi0 e1 e2 e3 e4 e5 e6 e7 e8 e9 e10 e11 hst'
+
+/-- **Progress**: under the invariants no lookup of round `k` fails. -/
+theorem alloc_step_total (hp : TotalPre s) (numRegs : Nat) {k : Nat} {a : ASt w} (hk : k < s.insts.size)
+    (hI : PassInv s k a) (hT : TInv s numRegs k a) : ∃ u a', allocStep numRegs k a = .ok (u, a') := by
+  have hpa := hp.pre
+  suffices H : ∃ res, allocStep numRegs k a = .ok res by
+    obtain ⟨⟨u, a'⟩, h⟩ := H; exact ⟨u, a', h⟩
+  rw [allocStep_eqK]
+  simp only [get_bind]
+  -- phase 1
+  obtain ⟨atf0, b, hd, _⟩ := drainEnds_total (i := k) (2 * a.nre.length + 2) [] a hT.sorted hT.heapRange
+    (by have := muE_le k (luOf a) a.nre; omega)
+  refine bind_prog hd ?_
+  obtain ⟨d1, d2, d3⟩ := drainEnds_ok _ hd
+  obtain ⟨hb, hdead⟩ := passInv_drain hI d1 d2 (fun t ht => (d3 t ht).resolve_left (by simp))
+  have DF := drainFacts hpa hI hT hd
+  have hkb : k < b.st.insts.size := by rw [hb.isize]; exact hk
+  have hi0 : b.st.insts[k]? = some b.st.insts[k] := Array.getElem?_eq_getElem hkb
+  generalize b.st.insts[k] = inst0 at hi0
+  refine bind_prog ((instAt_ok _ _ _ _ _).2 ⟨hi0, rfl⟩) ?_
+  -- the current instruction is the input instruction or a moved computation
+  have hcurcase : s.insts[k]? = some inst0 ∨ ∃ op m t s0 s1, Fused s k b k op m t s0 s1 ∧
+      inst0 = mkArith op (.mem m) s0 s1 := by
+    rcases hb.fut k (Nat.le_refl _) with hsame | ⟨op, m, t, s0, s1, hFu⟩
+    · exact Or.inl (by rw [← hsame]; exact hi0)
+    · refine Or.inr ⟨op, m, t, s0, s1, hFu, ?_⟩
+      have h2 := hFu.2.2
+      rw [hi0] at h2
+      exact Option.some.inj h2
+  -- the destination temporary of the current instruction
+  have hdstb : ∀ t, dstTmp? inst0 = some t → s.insts[k]? = some inst0 ∧
+      ∃ (r : RangeInfo) (f L : Nat), s.ranges[t]? = some r ∧ b.st.ranges[t]? = some r ∧ r.created = k ∧
+        r.firstUse = some f ∧ r.lastUse = some L ∧ k < f ∧ f ≤ L := by
+    intro t ht
+    rcases hcurcase with hPk | ⟨op, m, t', s0, s1, _, rfl⟩
+    · obtain ⟨r, f, L, g1, g2, g3, g4, g5⟩ := hp.defd k inst0 t hPk ht
+      obtain ⟨rd, gd1, gd2⟩ := hpa.defs k inst0 t hPk (mem_defs_of_dstTmp? ht)
+      rw [g1] at gd1; cases gd1
+      obtain ⟨r', q1, _, _, q4⟩ := hb.rkeep t r g1
+      rw [q4 (by omega)] at q1
+      exact ⟨hPk, r, f, L, g1, q1, gd2, g2, g3, g4, g5⟩
+    · rw [dstTmp?_mkArith] at ht; cases ht
+  -- every temporary read by the current instruction has a location
+  have hsrcb : ∀ u ∈ BcWf.uses inst0, (∃ l, alGet b.repl u = some l) ∧ ∃ ru : RangeInfo, b.st.ranges[u]? = some ru := by
+    intro u hu
+    have hxa : a.st.insts[k]? = some inst0 := by rw [← DF.st]; exact hi0
+    obtain ⟨j', y, hy, huy⟩ := read_in_input hI (Nat.le_refl _) hxa hu
+    have hcr : ∃ ru : RangeInfo, s.ranges[u]? = some ru ∧ ru.created < k := by
+      rcases hcurcase with hPk | ⟨op, m, t', s0, s1, hFu, rfl⟩
+      · obtain ⟨ru, Lu, g1, _, g3, _⟩ := hpa.uses k inst0 u hPk hu
+        exact ⟨ru, g1, g3⟩
+      · obtain ⟨ru, g1, g2⟩ := fused_src_created hpa hb hFu (u := u) (uses_mkArith_tmp hu)
+        exact ⟨ru, g1, by omega⟩
+    obtain ⟨ru, g1, g2⟩ := hcr
+    obtain ⟨l, hl⟩ := hT.complete k inst0 u ru (Nat.le_refl _) hxa hu g1 g2
+    obtain ⟨rb, q1, _⟩ := hb.rkeep u ru g1
+    exact ⟨⟨l, by rw [DF.repl]; exact hl⟩, rb, q1⟩
+  -- phase 2
+  refine phCanK_prog ?_ ?_
+  · intro t ht
+    obtain ⟨_, r, f, L, _, g2, _, _, g5, g6, g7⟩ := hdstb t ht
+    exact ⟨r, L, g2, g5, by omega⟩
+  intro can
+  -- phase 3
+  refine phFuseK_prog ?_ ?_
+  · intro op t s0 s1 har
+    have hinst0 : inst0 = mkArith op (.tmp t) s0 s1 := arith?_eq_some.1 har
+    obtain ⟨_, r, f, L, g1, g2, _, g4, g5, g6, g7⟩ := hdstb t (by rw [hinst0, dstTmp?_mkArith])
+    refine ⟨r, g2, ?_, ?_⟩
+    · intro L' hL'
+      have hfn : f < b.st.insts.size := by
+        rw [hb.isize]
+        have := hp.lastLt t r L g1 g5
+        omega
+      exact ⟨f, _, g4, Array.getElem?_eq_getElem hfn⟩
+    · intro u hu
+      apply hsrcb u
+      rw [hinst0, uses_mkArith]
+      rcases hu with rfl | rfl <;> simp [locTmp]
+  intro atf aF hF
+  -- phases 4-7, as in `alloc_step`
+  rcases hF with ⟨rfl, rfl⟩ | ⟨op, t, s0, s1, r, L, f, m, src, atf1, a1, a2, x, e1, e2, e3, e4, e5, e6, e7, e8,
+      e9, e10, e11, rfl⟩
+  · -- no fusion
+    obtain ⟨new, hn⟩ := rwInst_total (repl := aF.repl) (cur := inst0) (fun u hu => (hsrcb u hu).1)
+    refine phRewriteK_prog hi0 hn ?_
+    have hc1 := passInv_rewrite hb hi0 hn
+    have hc2 := passInv_free (numRegs := numRegs) (atf := atf) hc1
+    refine bind_prog (freeAll_eq numRegs atf _) ?_
+    have hfl : ∀ r ∈ (freeList numRegs atf (aF.setI k new)).freeRegs, r < numRegs := by
+      apply freeList_freeRegs_lt
+      show ∀ r ∈ aF.freeRegs, r < numRegs
+      rw [DF.freeRegs]; exact hT.freeLt
+    obtain ⟨live, hlive⟩ := liveMask_total hc2.regs.freeRegsNodup hfl
+    refine phLiveK_prog (a := freeList numRegs atf (aF.setI k new)) hlive ?_
+    have hcst : (freeList numRegs atf (aF.setI k new)).st = (aF.setI k new).st := freeList_st _ _ _
+    have hx3 : (pushLive (freeList numRegs atf (aF.setI k new)) live).st.insts[k]? = some new := by
+      show (freeList numRegs atf (aF.setI k new)).st.insts[k]? = _
+      rw [hcst, getElem?_setI]; simp [hkb]
+    refine phDst_prog hx3 ?_
+    intro t ht
+    obtain ⟨hzc, ycur, hycur, hbrc⟩ := hb.skel k inst0 hi0
+    obtain ⟨_, _, hnd⟩ := rwInst_facts hn (fun t v g => (hb.replDom t v g).1) hzc
+    obtain ⟨_, r, f, L, _, g2, _, _, g5, g6, g7⟩ := hdstb t (by rw [← hnd]; exact ht)
+    refine ⟨r, L, ?_, g5, by omega⟩
+    show (freeList numRegs atf (aF.setI k new)).st.ranges[t]? = some r
+    rw [hcst]; exact g2
+  · -- fusion
+    obtain ⟨hcF, hkF, _, _, _, _, _, _, _, hfr, _⟩ :=
+      passInv_fuse hpa hb hdead hi0 e1 e2 e3 e4 e5 e6 e7 e8 e9 e10 e11
+    generalize retarget (fuseSt a2 k t L f m inst0) f m x = aF at *
+    refine phRewriteK_prog hkF (new := .noop) rfl ?_
+    rw [setI_self hkF]
+    have hc2 := passInv_free (numRegs := numRegs) (atf := atf) hcF
+    refine bind_prog (freeAll_eq numRegs atf _) ?_
+    have hfl : ∀ r ∈ (freeList numRegs atf aF).freeRegs, r < numRegs := by
+      apply freeList_freeRegs_lt
+      rw [hfr, DF.freeRegs]; exact hT.freeLt
+    obtain ⟨live, hlive⟩ := liveMask_total hc2.regs.freeRegsNodup hfl
+    refine phLiveK_prog (a := freeList numRegs atf aF) hlive ?_
+    have hx3 : (pushLive (freeList numRegs atf aF) live).st.insts[k]? = some .noop := by
+      show (freeList numRegs atf aF).st.insts[k]? = _
+      rw [freeList_st]; exact hkF
+    refine phDst_prog hx3 ?_
+    intro t ht
+    cases ht
+
 end Alloc
 end C02
 end Hpbf
